@@ -264,6 +264,19 @@ impl<'a> Cx<'a> {
 
     fn arg_text(&mut self, e: &Expr) -> (Vec<Pre>, String) {
         // an argument of an opaque call: its value when the translator models it, its source text otherwise
+        // (an array literal `[a, b]`: its elements, one after the other)
+        if let Expr::Array(arr) = e {
+            let mut pre = Vec::new();
+            let mut parts = Vec::new();
+            for el in arr.elems.iter() {
+                let (p, t) = self.arg_text(el);
+                pre.extend(p);
+                parts.push(t);
+            }
+            if !parts.is_empty() {
+                return (pre, parts.join(", "));
+            }
+        }
         let save_inputs = self.inputs.len();
         let save_places = self.places.clone();
         match self.expr(e, None) {
@@ -523,6 +536,8 @@ impl<'a> Cx<'a> {
             // what the statement compiler does, so it is logged among the calls it makes
             let log = if self.self_ty.as_deref() == Some("Parser") && !self.vm_mode && value.ty == LT::Bool {
                 self.effect(&format!("store {}", p), vec![format!("(Rs.Arg.b {})", value.term)])
+            } else if self.self_ty.as_deref() == Some("Parser") && !self.vm_mode && matches!(value.ty, LT::I(_)) {
+                self.effect(&format!("store {}", p), vec![format!("(Rs.Arg.i {})", value.term)])
             } else {
                 String::new()
             };
@@ -890,6 +905,10 @@ impl<'a> Cx<'a> {
                     };
                     let mut names = Vec::new();
                     for (p, t) in tp.elems.iter().zip(tys.iter()) {
+                        if matches!(p, Pat::Wild(_)) {
+                            names.push("_".to_string());
+                            continue;
+                        }
                         let (n, _) = self.simple_pat(p)?;
                         names.push(self.declare(&n, t.clone()));
                     }
@@ -1425,7 +1444,14 @@ impl<'a> Cx<'a> {
                     Pat::Wild(_) => "_".to_string(),
                     other => return self.un(format!("match pattern `{}` on enum {} not modelled", toks(other), en)),
                 };
-                let mut v = vec![Stmt::Expr((*a.body).clone(), None)];
+                let unit_call = matches!(&*a.body, Expr::MethodCall(mc)
+                    if self.path_of(&mc.receiver).as_deref() == Some("self")
+                        && self.self_ty.clone().map(|o| self.method_exists_on(&o, &mc.method.to_string()) && self.method_sig_on(&o, &mc.method.to_string()).is_none()).unwrap_or(false));
+                let mut v = match &*a.body {
+                    Expr::Block(b) => b.block.stmts.clone(),
+                    _ if unit_call => vec![Stmt::Expr((*a.body).clone(), Some(Default::default()))],
+                    other => vec![Stmt::Expr(other.clone(), None)],
+                };
                 if !rest.is_empty() {
                     v = seal(v);
                     v.extend_from_slice(rest);
